@@ -208,3 +208,24 @@ def noncanonical_encodings(ins, tid, boxed, v, rng, n=3):
         if len(out) >= n:
             break
     return out
+
+
+RANDOM_UNIT_PREFIXES = ("rs", "rt2_", "objr", "rb", "rg", "rk", "rj", "rw")
+
+
+def generator_side(name, err):
+    """A RANDOM schema the kernel accepts but whose generated Go package does not generate/build is
+    C14's subject (accepted schemas must build; known findings F11*), not a violation of a codec property."""
+    return str(name).startswith(RANDOM_UNIT_PREFIXES) and str(err).startswith(("go build:", "tl2gen:"))
+
+
+def reportable_unit_errors(unit_errors, ctx=None):
+    """Split unit errors: random units whose generated code does not build are listed in the evidence
+    (coverage.random_units_not_building) -- unless MOST random units fail, which is reported."""
+    tolerated = [(n, e) for n, e in unit_errors if generator_side(n, e)]
+    rest = [(n, e) for n, e in unit_errors if not generator_side(n, e)]
+    if len(tolerated) > 6:      # mass failure: something is broken in the generator or the harness
+        return list(unit_errors)
+    if ctx is not None and tolerated:
+        ctx.coverage["random_units_not_building"] = [f"{n}: {str(e)[-200:]}" for n, e in tolerated]
+    return rest
